@@ -852,6 +852,126 @@ Proof.
 Qed.
 
 (* ================================================================== *)
+(* Builder histories                                                   *)
+Definition is_reset (op : bop) : bool :=
+  match op with OBuild | OBuildPrefix _ | ORecycle => true | _ => false end.
+
+Lemma bs_run_app target n ops1 : forall st ops2,
+  bs_run target n st (ops1 ++ ops2)
+  = bs_run target n st ops1
+    ++ bs_run target n (fold_left (fun s op => fst (bs_step target n s op)) ops1 st) ops2.
+Proof.
+  induction ops1 as [|op r IH]; intros st ops2; [reflexivity|].
+  cbn [app bs_run fold_left]. destruct (bs_step target n st op) as [st' out] eqn:E. cbn [fst].
+  rewrite IH, app_assoc. reflexivity.
+Qed.
+
+Lemma reset_restores_init target n st r : is_reset r = true -> fst (bs_step target n st r) = bs_init n.
+Proof. destruct r; cbn [is_reset bs_step fst]; intros H; try discriminate H; reflexivity. Qed.
+
+(* a reused builder behaves as a fresh one: whatever happened before a Build /
+   BuildPrefix / Recycle has no influence on the tuples produced afterwards
+   (all cell kinds, all operations) *)
+Theorem builder_reuse_is_fresh (target : N) (n : nat) (ops1 : list bop) (r : bop) (ops2 : list bop) :
+  is_reset r = true ->
+  bs_run target n (bs_init n) (ops1 ++ r :: ops2)
+  = bs_run target n (bs_init n) (ops1 ++ [r]) ++ bs_run target n (bs_init n) ops2.
+Proof.
+  intros Hr. change (r :: ops2) with ([r] ++ ops2). rewrite app_assoc, bs_run_app. f_equal.
+  rewrite fold_left_app. cbn [fold_left]. rewrite reset_restores_init by exact Hr. reflexivity.
+Qed.
+
+(* --- the slots of the state machine are the declarative "fields put since the last reset" --- *)
+Lemma slot_of_cons i c log j : slot_of ((i, c) :: log) j = if Nat.eqb i j then c else slot_of log j.
+Proof. unfold slot_of. cbn [find fst snd]. destruct (Nat.eqb i j); reflexivity. Qed.
+
+Lemma set_slot_map_seq i c (f : nat -> bcell) : forall n s,
+  set_slot i c (map f (seq s n)) = map (fun j => if Nat.eqb (s + i) j then c else f j) (seq s n).
+Proof.
+  revert i. intros i n. revert i. induction n as [|n IH]; intros i s; [destruct i; reflexivity|].
+  cbn [seq map]. destruct i as [|i]; cbn [set_slot].
+  - rewrite Nat.add_0_r, Nat.eqb_refl. f_equal. apply map_ext_in. intros j Hj. apply in_seq in Hj.
+    destruct (Nat.eqb_spec s j); [lia | reflexivity].
+  - destruct (Nat.eqb_spec (s + S i) s); [lia|]. f_equal. rewrite IH.
+    apply map_ext. intros j. replace (S s + i)%nat with (s + S i)%nat by lia. reflexivity.
+Qed.
+
+Lemma set_slot_expected n i c log : set_slot i c (expected_slots n log) = expected_slots n ((i, c) :: log).
+Proof.
+  unfold expected_slots. rewrite set_slot_map_seq. apply map_ext. intros j. cbn [Nat.add]. rewrite slot_of_cons. reflexivity.
+Qed.
+
+Lemma expected_slots_nil n : expected_slots n [] = repeat BNull n.
+Proof.
+  unfold expected_slots. generalize 0%nat. induction n as [|n IH]; intros s; [reflexivity|].
+  cbn [seq map repeat]. rewrite IH. reflexivity.
+Qed.
+
+Definition plain_op (op : bop) : bool := match op with OPut _ c => plain_cell c | _ => true end.
+
+Lemma build_fields_total_plain target total cs :
+  forallb plain_cell cs = true -> build_fields_total target total cs = map (held target) cs.
+Proof.
+  intros H. unfold build_fields_total. destruct (target <? total); [|reflexivity].
+  rewrite candidates_plain by exact H. cbn [sort_desc fold_right pick_outline].
+  apply normalise_plain. exact H.
+Qed.
+
+Lemma since_reset_plain before p :
+  forallb plain_op before = true -> In p (since_reset before) -> plain_cell (snd p) = true.
+Proof.
+  induction before as [|op r IH]; intros H Hin; [destruct Hin|].
+  cbn [forallb] in H. apply andb_true_iff in H as [Hop H].
+  destruct op as [i c | | k | k |]; cbn [since_reset] in Hin; try (destruct Hin; fail).
+  - destruct Hin as [<- | Hin]; [exact Hop | apply IH; assumption].
+  - apply IH; assumption.
+Qed.
+
+Lemma expected_slots_plain n log :
+  (forall p, In p log -> plain_cell (snd p) = true) -> forallb plain_cell (expected_slots n log) = true.
+Proof.
+  intros H. unfold expected_slots. apply forallb_forall. intros c Hc. apply in_map_iff in Hc as [j [<- _]].
+  unfold slot_of. destruct (find (fun p => Nat.eqb (fst p) j) log) as [p|] eqn:F; [|reflexivity].
+  apply find_some in F as [F _]. apply H. exact F.
+Qed.
+
+(* Full statement: for every history (any cells) each produced tuple equals the
+   fresh construction from the fields put since the last reset.  Proved here for
+   histories of plain (non-adaptive) values, any operations, including repeated
+   puts on a column; with adaptive values the running size counter of the builder
+   also counts overwritten puts, so the statement needs "no column is put twice
+   between resets" (not proved).  builder_reuse_is_fresh above covers all cells. *)
+Theorem builder_history_canonical_partial (target : N) (n : nat) : forall ops st before,
+  forallb plain_op ops = true -> forallb plain_op before = true ->
+  bs_slots st = expected_slots n (since_reset before) ->
+  bs_run target n st ops = spec_outputs target n before ops.
+Proof.
+  induction ops as [|op r IH]; intros st before Hops Hb Hs; [reflexivity|].
+  cbn [forallb] in Hops. apply andb_true_iff in Hops as [Hop Hops].
+  assert (Hb' : forallb plain_op (op :: before) = true) by (cbn [forallb]; rewrite Hop, Hb; reflexivity).
+  assert (Hplain : forallb plain_cell (bs_slots st) = true).
+  { rewrite Hs. apply expected_slots_plain. intros p Hp. exact (since_reset_plain before p Hb Hp). }
+  assert (Hinit : bs_slots (bs_init n) = expected_slots n []) by (symmetry; apply expected_slots_nil).
+  cbn [bs_run spec_outputs].
+  destruct op as [i c | | k | k |]; cbn [bs_step expected_out app].
+  - apply IH; [exact Hops | exact Hb' |]. cbn [bs_slots since_reset]. rewrite Hs. apply set_slot_expected.
+  - rewrite build_fields_total_plain by exact Hplain.
+    rewrite <- Hs, (build_plain_is_new_tuple target _ Hplain). f_equal.
+    apply IH; [exact Hops | exact Hb' | exact Hinit].
+  - rewrite <- Hs. f_equal. apply IH; [exact Hops | exact Hb' | exact Hinit].
+  - rewrite <- Hs. f_equal. apply IH; [exact Hops | exact Hb' | exact Hs].
+  - apply IH; [exact Hops | exact Hb' | exact Hinit].
+Qed.
+
+Corollary builder_history_canonical (target : N) (n : nat) (ops : list bop) :
+  forallb plain_op ops = true ->
+  bs_run target n (bs_init n) ops = spec_outputs target n [] ops.
+Proof.
+  intros H. apply builder_history_canonical_partial; [exact H | reflexivity |].
+  symmetry. apply expected_slots_nil.
+Qed.
+
+(* ================================================================== *)
 (* oracle_on_model: the property holds of the model on every           *)
 (* well-formed input outside the F9 class                              *)
 Definition is_adaptive (e : enc) : bool := match kind_of e with KAdaptive => true | _ => false end.
@@ -1263,7 +1383,7 @@ Proof.
     apply tuple_compare_from_spec. intros j _. cbn [Nat.add].
     rewrite !tuple_roundtrip by assumption. apply field_compare_represents; [apply Pl | apply Pr]. }
   unfold oracle, model_obs.
-  cbn [o_a o_same o_a_out o_b o_count o_fields o_dec o_cmp o_cmp_ba o_cmp_nofast i_types i_target i_a i_b].
+  cbn [o_a o_same o_a_out o_b o_count o_fields o_dec o_cmp o_cmp_ba o_cmp_nofast o_hist i_types i_target i_a i_b i_hist].
   fold types tg rd ca cb.
   change (build tg ca) with (new_tuple fa). change (build tg cb) with (new_tuple fb).
   repeat (apply andb_true_iff; split).
@@ -1296,6 +1416,9 @@ Proof.
     assert (Hb : cb = bcells false types (trim_cells (i_b i)) ++ repeat BNull k2).
     { unfold cb. rewrite E2 at 1. apply bcells_app_nulls. rewrite <- E2. apply cells_ok_length. exact WB. }
     rewrite Ha, Hb, !build_app_nulls, Eq0. reflexivity.
+  - rewrite builder_history_canonical.
+    + clear. induction (spec_outputs _ _ _ _) as [|x l IHl]; [reflexivity|]. cbn [list_eqb]. rewrite beq_bytes_refl, IHl. reflexivity.
+    + apply forallb_forall. intros op Hop. apply in_map_iff in Hop as [h [<- _]]. destruct h; reflexivity.
 Qed.
 
 
@@ -1440,6 +1563,7 @@ Qed.
 Example wf_input_example :
   let i := {| i_types := [(EInt32, false); (EString, true); (EStrAdaptive, true)]; i_target := 2048;
               i_a := [CVal (VZ 7%Z); CNull; CAd [104; 105] [1; 2; 3]];
-              i_b := [CVal (VZ (-1)%Z); CVal (VB [120])] |} in
+              i_b := [CVal (VZ (-1)%Z); CVal (VB [120])];
+              i_hist := [HPut 0 (VZ 1%Z); HPut 2 (VB [115]); HPrefix 1; HPut 0 (VZ 7%Z); HBuild] |} in
   wf_input i = true /\ f9_free i = true.
 Proof. vm_compute. split; reflexivity. Qed.
